@@ -34,7 +34,7 @@ pub fn plan(p: &EpParams) -> Plan {
     Plan {
         episodes: n,
         exhaustive: false,
-        rule: "multi-thread runtime (6 workers, real clock): 300-1200 registered push subscriptions, the push loop ticking every 1-3 ms, 3-5 clients each issuing calls for 150 ms (quick) / 400 ms (thorough) of wall time, drawn from CreateSubscription(push) / GetSubscription / DeleteSubscription / ListSubscriptions / Pull(return_immediately) / Publish / Acknowledge. Oracle: completed-call counter watched from a non-worker thread; no completion for 15 s of wall time while calls are outstanding = violation, not done after 90 s = inconclusive. Non-trivial: push subscriptions were created while the loop was ticking (registry walked at least 20 times during the client phase). Distinct: (registered, interval, clients, calls per kind).".into(),
+        rule: "multi-thread runtime (6 workers, real clock): 300-1200 registered push subscriptions, the push loop ticking every 1-3 ms, 3-5 clients each issuing calls for 150 ms (quick) / 400 ms (thorough) of wall time, drawn from CreateSubscription(push) / GetSubscription / DeleteSubscription / ListSubscriptions / Pull(return_immediately) / Publish / Acknowledge, and on the topic map (40 topics + a pool of 4 names) ListTopics / CreateTopic / DeleteTopic / GetTopic / ListTopicSubscriptions. Oracle: completed-call counter watched from a non-worker thread; no completion for 15 s of wall time while calls are outstanding = violation, not done after 90 s = inconclusive. Non-trivial: push subscriptions were created while the loop was ticking (registry walked at least 20 times during the client phase). Distinct: (registered, interval, clients, calls per kind).".into(),
     }
 }
 
@@ -119,6 +119,10 @@ async fn episode(p: &EpParams, sh: Arc<Shared>) -> EpReport {
             rep.inc("registered_ok");
         }
     }
+    // a page worth of other topics, and a small pool of topic names the clients create and delete
+    for i in 0..40u32 {
+        c0.create_topic(&topic_name(1, 100 + i)).await.ok();
+    }
     let interval_ms = rng.range(1, 3);
     let walks_before = hook_total();
     let push_loop = tokio::spawn(w.app.push_loop(Duration::from_millis(interval_ms)).run());
@@ -143,7 +147,7 @@ async fn episode(p: &EpParams, sh: Arc<Shared>) -> EpReport {
                 if t_start.elapsed() >= phase {
                     break;
                 }
-                let kind = *r.pick(&["CreatePush", "CreatePush", "CreatePush", "GetSub", "DeleteSub", "ListSubs", "PullRI", "Publish", "Ack", "GetRegistered", "SharedCreate", "SharedCreate", "SharedDelete", "SharedDelete"]);
+                let kind = *r.pick(&["CreatePush", "CreatePush", "CreatePush", "GetSub", "DeleteSub", "ListSubs", "PullRI", "Publish", "Ack", "GetRegistered", "SharedCreate", "SharedCreate", "SharedDelete", "SharedDelete", "ListTopics", "ListTopics", "TopicCreate", "TopicDelete", "GetTopic", "ListTopicSubs"]);
                 let label = format!("{} client={} call={}", kind, c, i);
                 {
                     let mut l = sh.last_calls.lock().unwrap();
@@ -189,6 +193,22 @@ async fn episode(p: &EpParams, sh: Arc<Shared>) -> EpReport {
                             let n = mine.remove(0);
                             let _ = cx.delete_sub(&n).await;
                         }
+                    }
+                    // the topic map: listings of a full page while other clients create and delete topics
+                    "ListTopics" => {
+                        let _ = cx.list_topics("projects/p1", *r.pick(&[0, 7, 1000]), "").await;
+                    }
+                    "TopicCreate" => {
+                        let _ = cx.create_topic(&topic_name(1, 200 + r.below(4) as u32)).await;
+                    }
+                    "TopicDelete" => {
+                        let _ = cx.delete_topic(&topic_name(1, 200 + r.below(4) as u32)).await;
+                    }
+                    "GetTopic" => {
+                        let _ = cx.get_topic(&topic_name(1, 100 + r.below(44) as u32)).await;
+                    }
+                    "ListTopicSubs" => {
+                        let _ = cx.list_topic_subs(&t, 5, "").await;
                     }
                     "ListSubs" => {
                         let _ = cx.list_subs("projects/p1", 5, "").await;
